@@ -35,7 +35,8 @@ def main():
                 print('EDIT FAILED: %d occurrences' % src.count(old))
                 return 3
             open(pth, 'w').write(src.replace(old, new))
-        env = dict(os.environ, XEH_REPO=repo, XEH_SCRATCH='1')
+        # a target directory of its own kind: never the one the checks on /repo use (two cargo runs deleting each other's fingerprints)
+        env = dict(os.environ, XEH_REPO=repo, XEH_SCRATCH='1', XEH_TGT_SUFFIX=os.environ.get('XEH_TGT_SUFFIX', '-tp'))
         rc_all = {}
         for pid in ids:
             p = subprocess.run([os.path.join(VERIF, 'check'), pid], env=env, stdout=subprocess.PIPE, stderr=subprocess.STDOUT, text=True)
